@@ -10,6 +10,7 @@ func TestMain(m *testing.M) { vkit.Main(m) }
 
 func TestProp_Controlled(t *testing.T) { PartCtl.Run(t) }
 func TestProp_Stress(t *testing.T)     { PartStress.Run(t) }
+func TestProp_Crowd(t *testing.T)      { PartCrowd.Run(t) }
 func TestRace_Stress(t *testing.T)     { PartStressRace.Run(t) }
 func TestEnum_KnownF21(t *testing.T)   { PartF21.Run(t) }
 
@@ -18,4 +19,5 @@ func TestReplay(t *testing.T) {
 	PartStress.Replay(t, 50)
 	PartStressRace.Replay(t, 50)
 	PartF21.Replay(t, 1)
+	PartCrowd.Replay(t, 1)
 }
